@@ -39,6 +39,18 @@ theorem map_if_key (ws : List Watcher) (u : Nat) (f : Watcher → Watcher)
     · simp [h, (hf w).1, (hf w).2]
     · simp [h]
 
+/-- the same for any guard -/
+theorem map_guard_key (ws : List Watcher) (g : Watcher → Bool) (f : Watcher → Watcher)
+    (hf : ∀ w, (f w).uid = w.uid ∧ (f w).name = w.name) :
+    (ws.map fun w => if g w = true then f w else w).map (fun w => (w.uid, w.name)) = ws.map (fun w => (w.uid, w.name)) := by
+  induction ws with
+  | nil => rfl
+  | cons w ws ih =>
+    simp only [List.map_cons, ih]
+    by_cases h : g w = true
+    · simp [h, (hf w).1, (hf w).2]
+    · simp [h]
+
 theorem modW_view (u : Nat) (f : Watcher → Watcher) (hf : ∀ w, (f w).uid = w.uid ∧ (f w).name = w.name) (s : State) :
     dirView ((modW u f) s).2 = dirView s := by
   simp only [modW, modS, dirView]
@@ -162,7 +174,7 @@ theorem dir_trySetNp (u : Nat) (n : Int) : Pres DirInv (trySetNp u n) := by
   · simp only [h, if_true]
   · have h' := Bool.eq_false_iff.mpr h
     simp only [h', Bool.false_eq_true, if_false, dirView]
-    rw [map_if_key _ _ _ (by intro w; simp)]
+    rw [map_guard_key _ _ _ (by intro w; simp)]
 
 theorem dir_spawnAdopt (u wid : Nat) : Pres DirInv (spawnAdopt u wid) := by
   apply pres_of_view
